@@ -354,3 +354,52 @@ Proof.
   - intros u i Hi. destruct (Per u i Hi) as (_ & _ & _ & D).
     destruct (slook (by_flow s) (i_flow i)) as [l|]; [|discriminate]. exists l. split; [reflexivity|now apply smem_in].
 Qed.
+
+(* ---------------------------------------------------------------------------------- *)
+(* the per-flow lists: exactly the removed instances leave them *)
+
+Lemma by_flow_char c now s s' :
+  NoDup (map fst (flows s)) -> cleanup c now s = Some s' -> closed_refs s ->
+  forall f l l', slook (by_flow s) f = Some l -> slook (by_flow s') f = Some l' ->
+  forall x, In x l' <-> In x l /\ slook (flows s') x <> None.
+Proof.
+  intros Hn Hr Hcl f l l' Hl Hl' x.
+  destruct (cleanup_frame c now s s' Hn Hr) as (_ & Fr & Fb & _ & _ & Fby & _).
+  destruct (Fby f l' Hl') as (l0 & Hl0 & Hsub & Hg). rewrite Hl in Hl0. inversion Hl0; subst l0.
+  destruct (cr_by_flow s Hcl f l Hl) as [Hnd Hmem].
+  assert (HndAll : forall f0 l0, slook (by_flow s) f0 = Some l0 -> NoDup l0) by (intros f0 l0 H; exact (proj1 (cr_by_flow s Hcl f0 l0 H))).
+  rewrite cleanup_split in Hr. destruct (cleanup0 c now s) as [s0|] eqn:H0; [|discriminate].
+  inversion Hr; subst s'. simpl in *.
+  destruct (cleanup0_by_gone c now s s0 Hn H0 HndAll f l' Hl') as [_ G].
+  split.
+  - intro Hx. split; [auto|]. destruct (Hmem x (Hsub x Hx)) as (i & Hi & Hfl).
+    destruct (removable c now i) eqn:E; [exfalso; exact (G x i Hi E Hfl Hx)|].
+    destruct (Fr x i Hi E) as (i' & Hi' & _). congruence.
+  - intros [Hx Hp]. destruct (in_dec string_dec x l') as [?|Hno]; [assumption|]. exfalso. exact (Hp (Hg x Hx Hno)).
+Qed.
+
+Theorem later_same_by_flow c t1 t2 s s1 s12 s2 :
+  cmp_gt c = true -> t1 <= t2 -> NoDup (map fst (flows s)) ->
+  cleanup c t1 s = Some s1 -> cleanup c t2 s1 = Some s12 -> cleanup c t2 s = Some s2 ->
+  purge_children c = true -> purge_scopes c = true -> closed_refs s ->
+  forall f l12 l2, slook (by_flow s12) f = Some l12 -> slook (by_flow s2) f = Some l2 ->
+  forall x, In x l12 <-> In x l2.
+Proof.
+  intros Hgt Ht Hn R1 R12 R2 Pc Ps Hcl f l12 l2 H12 H2 x.
+  pose proof (cleanup_keys c t1 s s1 Hn R1) as Hn1.
+  pose proof (cleanup_preserves_closed c t1 s s1 Hn R1 Pc Ps Hcl) as Hcl1.
+  destruct (cleanup_frame c t2 s1 s12 Hn1 R12) as (_ & _ & _ & _ & _ & Fby12 & _).
+  destruct (cleanup_frame c t1 s s1 Hn R1) as (_ & _ & _ & _ & _ & Fby1 & _).
+  destruct (cleanup_frame c t2 s s2 Hn R2) as (_ & _ & _ & _ & _ & Fby2 & _).
+  destruct (Fby12 f l12 H12) as (l1 & Hl1 & _). destruct (Fby1 f l1 Hl1) as (l & Hl & _).
+  destruct (Fby2 f l2 H2) as (l' & Hl' & _). rewrite Hl in Hl'. inversion Hl'; subst l'.
+  rewrite (by_flow_char c t2 s1 s12 Hn1 R12 Hcl1 f l1 l12 Hl1 H12 x).
+  rewrite (by_flow_char c t1 s s1 Hn R1 Hcl f l l1 Hl Hl1 x).
+  rewrite (by_flow_char c t2 s s2 Hn R2 Hcl f l l2 Hl H2 x).
+  pose proof (later_same_domain c t1 t2 s s1 s12 s2 Hgt Ht Hn R1 R12 R2 x) as Hd.
+  pose proof (cleanup_dom c t2 s1 s12 x Hn1 R12) as Hd12.
+  split.
+  - intros [[Hx _] Hp]. split; [exact Hx|]. tauto.
+  - intros [Hx Hp]. assert (Hp12 : slook (flows s12) x <> None) by tauto.
+    split; [split; [exact Hx|]|exact Hp12]. intro Hg. apply Hp12. apply Hd12. now left.
+Qed.
